@@ -193,9 +193,21 @@ func (hs *serverHandshakeStateGM) readClientHello() (isResume bool, err error) {
 		}
 	}
 
-	// just for test
-	c.config.getCertificate(hs.clientHelloInfo())
 	hs.cert = c.config.Certificates
+	if len(hs.cert) < 2 {
+		// no static pair configured: ask the certificate callbacks, as the auto-switch server does
+		sigCert, err := c.config.getCertificate(hs.clientHelloInfo())
+		if err != nil {
+			c.sendAlert(alertInternalError)
+			return false, err
+		}
+		encCert, err := c.config.getEKCertificate(hs.clientHelloInfo())
+		if err != nil {
+			c.sendAlert(alertInternalError)
+			return false, err
+		}
+		hs.cert = []Certificate{*sigCert, *encCert}
+	}
 
 	// GMT0024
 	if len(hs.cert) < 2 {
